@@ -281,6 +281,8 @@ def exec_loop_with_invariant(ctx, s, fr, spec, kind, iterable=None):
         for path in spec.open_dicts:
             open_dict_of(ctx, fr.locals, path)
 
+    if spec.entry is not None:
+        ctx.call_spec(spec.entry, ns_now())
     if kind == "while":
         ctx.prove(base + "/inv-entry", ctx.as_goal(ctx.call_spec(spec.inv, ns_now())))
         havoc()
